@@ -14,7 +14,8 @@ of a record that is created by the transaction. Hypotheses name the shape (type,
 * names ................. `nameCreate_effects`, `nameUpdate_effects`, `setOwner_effects`
 * VM transactions ....... `vm_effects` (call of a contract, DEPLOY, REDEPLOY, FEEDELEGATION) over `vmWorld`;
                           `own_vm_effects` (a contract account's tx to itself, `receiver = sender`) over `ownVmWorld`
-* MULTICALL ............. `multicall_not_applied` (the stub VM has no multicall code) -/
+* MULTICALL ............. `multicall_effects` over `multiWorld` (a payload that is a multicall script),
+                          `multicall_not_applied` (any other payload: the stub VM finds no code) -/
 
 namespace Aergo.Ledger
 
@@ -178,16 +179,17 @@ theorem self_send_effects {c : Ctx} {w : World} {bp : Nat} {tx : Tx} {res : Resu
         simp [absSub, hfee, Acct.setNonce, World.bal]
       · simp [finishOwn, successBranch]
 
-/-- a MULTICALL transaction is never applied by the stub VM (no code): it fails at run time or is rejected -/
-theorem multicall_not_applied {c : Ctx} {w : World} {bp : Nat} {tx : Tx} (ht : tx.type = .multicall) :
-    (executeTx c w bp tx).outcome ≠ .success := by
+/-- a MULTICALL transaction whose payload is no multicall script is never applied by the stub VM (no code): it
+fails at run time or is rejected -/
+theorem multicall_not_applied {c : Ctx} {w : World} {bp : Nat} {tx : Tx} (ht : tx.type = .multicall)
+    (hm : tx.script.multi = false) : (executeTx c w bp tx).outcome ≠ .success := by
   unfold executeTx
   simp only []
   split
   · simp
   · split
     · simp
-    · rw [if_pos ht]
+    · rw [if_pos ht, if_neg (by simp [hm])]
       exact runtimeBranch_not_success _ _ _ _ _ _ _ _ _
 
 /-! ### staking -/
@@ -1040,5 +1042,70 @@ theorem own_vm_effects {c : Ctx} {w : World} {bp : Nat} {tx : Tx} {res : Result}
             · subst h; simp at hs
             · exact key true h
       · exact key false h
+
+
+/-- the world after a successful MULTICALL (`receiver = sender`; a multicall has no storage of its own): every
+target of the script's transfers credited in script order, the sender's ONE record − what was sent − the fee,
+with the tx nonce -/
+def multiWorld (w : World) (tx : Tx) (fee : Nat) : World :=
+  let s := tx.sender
+  (creditThirds s s w tx.script.xfers).put s
+    (({ w.acct s with bal := w.bal s - sentOut s tx.script.xfers - fee } : Acct).setNonce tx.nonce)
+
+theorem multicall_effects {c : Ctx} {w : World} {bp : Nat} {tx : Tx} {res : Result}
+    (h : executeTx c w bp tx = res) (ht : tx.type = .multicall) (hs : res.outcome = .success) :
+    tx.script.multi = true ∧ tx.script.err = .ok ∧
+    sentOut tx.sender tx.script.xfers + (txBaseFee c tx.payloadLen + tx.script.fee) ≤ w.bal tx.sender ∧
+    res.w = multiWorld w tx (txBaseFee c tx.payloadLen + tx.script.fee) ∧
+    res.bp = bp + (txBaseFee c tx.payloadLen + tx.script.fee) := by
+  unfold executeTx at h
+  simp only [] at h
+  split at h
+  · subst h; simp at hs
+  · split at h
+    · subst h; simp at hs
+    · rw [if_pos ht] at h
+      split at h
+      · rename_i hmulti
+        have herr := finishOwn_success_err (h ▸ hs)
+        generalize hoo : executeMulti c w tx (w.getCopy tx.sender) = o at h herr
+        unfold executeMulti at hoo
+        simp only [] at hoo
+        split at hoo
+        · subst hoo; simp at herr
+        · unfold vmMulti at hoo
+          split at hoo
+          · subst hoo; simp at herr
+          · split at hoo
+            · subst hoo; simp at herr
+            · subst hoo; simp at herr
+          · subst hoo; simp at herr
+          · subst hoo; simp at herr
+          · rename_i hok
+            split at hoo
+            · subst hoo; simp at herr
+            · rename_i sa ra w' t' hx
+              simp only [getCopy_id, getCopy_cur] at hx
+              obtain ⟨x1, x2, x3, x4⟩ := runXfers_exact_own hx
+              simp only [] at hoo
+              split at hoo
+              · subst hoo; simp at herr
+              · rename_i hfee
+                subst hoo
+                have hb : (w.acct tx.sender).bal = w.bal tx.sender := rfl
+                have hfee' : txBaseFee c tx.payloadLen + tx.script.fee ≤ ra.bal := Nat.le_of_not_lt hfee
+                rw [x3] at hfee'
+                simp only [] at hfee'
+                unfold finishOwn at h
+                simp only [] at h
+                subst h
+                refine ⟨hmulti, hok, by omega, ?_, by simp [successBranch]⟩
+                have hf2 : txBaseFee c tx.payloadLen + tx.script.fee ≤ ra.bal := Nat.le_of_not_lt hfee
+                simp only [successBranch, Copy.subBalance, Copy.setBal, getCopy_id, ne_eq, not_true_eq_false,
+                  if_false, absSub, hf2, if_true]
+                rw [x3, x4]
+                simp [multiWorld, World.bal, Acct.setNonce]
+      · subst h
+        exact absurd hs (runtimeBranch_not_success _ _ _ _ _ _ _ _ _)
 
 end Aergo.Ledger
